@@ -307,7 +307,7 @@ package k8s
 //@   ensures err == nil
 //@   ensures [C13] r.Total.MilliCPU == sumPodCPU(pods, len(pods)) && r.Total.Memory == sumPodMem(pods, len(pods))
 //@ loop #0
-//@   invariant unfold(sumPodCPU(pods, #i)) && unfold(sumPodMem(pods, #i)) && ret.Total.MilliCPU == sumPodCPU(pods, #i) && ret.Total.Memory == sumPodMem(pods, #i)
+//@   invariant [C13] unfold(sumPodCPU(pods, #i)) && unfold(sumPodMem(pods, #i)) && ret.Total.MilliCPU == sumPodCPU(pods, #i) && ret.Total.Memory == sumPodMem(pods, #i)
 
 // C13: capacity is the sum of allocatable CPU (millicores) and memory (bytes) over the nodes given.
 //@ func CalculateNodesCapacity(nodes, pods) (r, err)
@@ -315,7 +315,7 @@ package k8s
 //@   ensures err == nil
 //@   ensures [C13] r.Total.MilliCPU == sumAllocCPU(nodes, len(nodes)) && r.Total.Memory == sumAllocMem(nodes, len(nodes))
 //@ loop #0
-//@   invariant unfold(sumAllocCPU(nodes, #i)) && unfold(sumAllocMem(nodes, #i)) && ret.Total.MilliCPU == sumAllocCPU(nodes, #i) && ret.Total.Memory == sumAllocMem(nodes, #i)
+//@   invariant [C13] unfold(sumAllocCPU(nodes, #i)) && unfold(sumAllocMem(nodes, #i)) && ret.Total.MilliCPU == sumAllocCPU(nodes, #i) && ret.Total.Memory == sumAllocMem(nodes, #i)
 
 // helpers of the starvation heuristics (not part of C13): they only build fresh values
 //@ func mapPodsToNode(pods) (m)
